@@ -176,6 +176,7 @@ func loadProg(dir string, cfg Config) (*Prog, error) {
 		}
 		return a.Pos() < b.Pos()
 	})
+	computeRenames(p)
 	return p, nil
 }
 
@@ -270,6 +271,13 @@ func (p *Prog) Field(pkg, typ, field string) *types.Var {
 			return st.Field(i)
 		}
 	}
+	if nw, ok := renamedOld[pkg+"."+typ+"."+field]; ok {
+		for i := 0; i < st.NumFields(); i++ {
+			if st.Field(i).Name() == nw {
+				return st.Field(i)
+			}
+		}
+	}
 	return nil
 }
 
@@ -278,6 +286,9 @@ func (p *Prog) Method(pkg, typ, name string) *ssa.Function {
 	n := p.Named(pkg, typ)
 	if n == nil {
 		return nil
+	}
+	if nw, ok := renamedOld[pkg+"."+typ+"."+name]; ok {
+		name = nw
 	}
 	for _, t := range []types.Type{types.NewPointer(n), n} {
 		sel := p.SSA.MethodSets.MethodSet(t).Lookup(n.Obj().Pkg(), name)
@@ -308,7 +319,13 @@ func (p *Prog) Func(pkg, name string) *ssa.Function {
 	if sp == nil {
 		return nil
 	}
-	return sp.Func(name)
+	if f := sp.Func(name); f != nil {
+		return f
+	}
+	if nw, ok := renamedOld[strings.TrimPrefix(pkg, modPath)+"."+name]; ok {
+		return sp.Func(nw)
+	}
+	return nil
 }
 
 // FuncObj finds the types.Func for a package-level function or method "Type.Method".
@@ -335,7 +352,7 @@ func fnName(fn *ssa.Function) string {
 	if fn == nil {
 		return "<nil>"
 	}
-	s := fn.String()
+	s := canonFnString(fn, fn.String())
 	s = strings.ReplaceAll(s, modPath+"/", "")
 	s = strings.ReplaceAll(s, modPath, "iscp-go")
 	return s
